@@ -27,7 +27,10 @@ manifest - an unusual input, a particular trip count or branch outcome, a multi-
 configuration or shape - NOT something that ordinary use or the simplest example would expose at once. The two changes
 should break the property through different mechanisms / code sites. Prefer code sites and triggering inputs that a
 checker exploring typical small programs would be unlikely to reach: secondary branches, helper functions, rarely used
-options or element types, interactions between two passes, particular nesting or ordering of operations.
+options or element types, interactions between two passes, particular nesting or ordering of operations. Earlier rounds
+of this exercise already covered the most obvious single-line slips at the central functions named above, so look
+further afield: code that those functions call, data structures they share with other passes, printing/parsing of the
+attributes involved, default arguments, and inputs that combine two features.
 
 Environment facts:
  * Python is /venv/bin/python (3.12). No network. Run things from inside the worktree so that `import snaxc` picks up
